@@ -51,8 +51,8 @@ impl Ctx {
     }
 
     /// EE certificate for an object of `kind` with EE facet `ee` and coverage facet `cover`.
-    fn ee_cert(&mut self, kind: &str, ee: &str, cover: &str, fam: &str) -> Vec<u8> {
-        let key = format!("{kind}/{ee}/{cover}/{fam}");
+    fn ee_cert(&mut self, kind: &str, ee: &str, cover: &str, fam: &str, pol: &str) -> Vec<u8> {
+        let key = format!("{kind}/{ee}/{cover}/{fam}/{pol}");
         if let Some(d) = self.ee_cache.get(&key) {
             return d.clone();
         }
@@ -91,12 +91,23 @@ impl Ctx {
                 _ => (IpResources::blocks(b4), IpResources::missing(), AsResources::missing()),
             })
         } else { None };
+        // trimming policy: the certificate claims 10.0.0.0/8 and/or 2001:db8::/32, of which the issuer holds atoms a1 and a2 (a1)
+        let raw = if kind == "roa" && pol == "trim" {
+            use rpki::repository::resources::{IpBlock, IpBlocks, IpResources, AsResources, Prefix};
+            let c4: IpBlocks = [IpBlock::from(Prefix::from_v4_str("10.0.0.0/8").unwrap())].into_iter().collect();
+            let c6: IpBlocks = [IpBlock::from(Prefix::from_v6_str("2001:db8::/32").unwrap())].into_iter().collect();
+            Some(match fam {
+                "v6" => (IpResources::missing(), IpResources::blocks(c6), AsResources::missing()),
+                "v4+" | "v6+" => (IpResources::blocks(c4), IpResources::blocks(c6), AsResources::missing()),
+                _ => (IpResources::blocks(c4), IpResources::missing(), AsResources::missing()),
+            })
+        } else { raw };
         let p = CertParams {
             kind: if ee == "isca" { "ca".into() } else { "ee".into() }, key: "e0".into(),
             // the "ipinherit" object is issued by the AS-only CA (key k1)
             sig_key: if ee == "wrongissuer" { "k2".into() } else if cover == "ipinherit" { "k1".into() } else { "k0".into() },
             aki: if ee == "akibad" { "k2".into() } else if cover == "ipinherit" { "k1".into() } else { "k0".into() },
-            ski_ok: ee != "skibad", tamper: "none".into(), nb: 0, na: 2, policy: "refuse".into(), v4, v6, asn, serial: 4711, raw, validity: Some(validity),
+            ski_ok: ee != "skibad", tamper: "none".into(), nb: 0, na: 2, policy: pol.into(), v4, v6, asn, serial: 4711, raw, validity: Some(validity),
         };
         let d = build_cert(&self.pki, &p, &self.router);
         self.ee_cache.insert(key, d.clone());
@@ -104,7 +115,7 @@ impl Ctx {
     }
 }
 
-fn roa_content(cover: &str, fam: &str) -> Vec<u8> {
+fn roa_content(cover: &str, fam: &str, pol: &str) -> Vec<u8> {
     let pfx = |addr: u128, len: u8, ml: Option<u8>| {
         let mut v = vec![der::bits128(addr, len)];
         if let Some(m) = ml { v.push(der::uint(m as u128)); }
@@ -114,10 +125,13 @@ fn roa_content(cover: &str, fam: &str) -> Vec<u8> {
     // the prefix one bit less specific than a1
     let inside = |six: bool| if six { vec![pfx(0x2001_0db8u128 << 96, 49, Some(50)), pfx(0x2001_0db8_0000_8000u128 << 64, 49, None)] }
                              else { vec![pfx(0x0A00_0000u128 << 96, 25, Some(26)), pfx(0x0A00_0080u128 << 96, 25, None)] };
-    let outside = |six: bool| if six { pfx(0x2001_0db8_0002u128 << 80, 48, None) } else { pfx(0x0A00_0200u128 << 96, 24, None) };
+    // (under the trimming policy the certificate's validated IPv4 resources include atom a2, so "outside" moves on to 10.0.4.0/24)
+    let outside = |six: bool| if six { pfx(0x2001_0db8_0002u128 << 80, 48, None) } else if pol == "trim" { pfx(0x0A00_0400u128 << 96, 24, None) } else { pfx(0x0A00_0200u128 << 96, 24, None) };
     let wider = |six: bool| if six { pfx(0x2001_0db8u128 << 96, 47, None) } else { pfx(0x0A00_0000u128 << 96, 23, None) };
     let six = fam.starts_with("v6");
     let mut main = inside(six);
+    // the second piece the trimmed certificate ends up with (atom a2, 10.0.2.0/23): a prefix in there is covered as well
+    if pol == "trim" && !six { main.push(pfx(0x0A00_0300u128 << 96, 24, None)); }
     if cover == "outside" { main.push(outside(six)); }
     // less specific than the certificate's block: shares addresses with it but is not contained
     if cover == "wider" { main.push(wider(six)); }
@@ -126,7 +140,7 @@ fn roa_content(cover: &str, fam: &str) -> Vec<u8> {
     let mut v6: Vec<Vec<u8>> = Vec::new();
     if six { v6 = main } else { v4 = main }
     if fam.ends_with('+') {
-        if six { v4 = inside(false) } else { v6 = inside(true) }
+        if six { v4 = inside(false); if pol == "trim" { v4.push(pfx(0x0A00_0300u128 << 96, 24, None)); } } else { v6 = inside(true) }
     }
     // a prefix of the family the certificate has no resources for
     if cover == "nores" {
@@ -176,7 +190,7 @@ pub fn assemble(ctx: &mut Ctx, c: &Value) -> (Vec<u8>, bool) {
     let content = match kind {
         // (a caller may bring its own eContent: C14 wraps its manifest contents in real signed manifests)
         _ if c["content"].is_array() => c["content"].as_array().unwrap().iter().map(|x| x.as_u64().unwrap() as u8).collect(),
-        "roa" => roa_content(g("cover"), c["fam"].as_str().unwrap_or("v4")),
+        "roa" => roa_content(g("cover"), c["fam"].as_str().unwrap_or("v4"), c["pol"].as_str().unwrap_or("refuse")),
         "aspa" => aspa_content(if g("cover") == "outside" { 64497 } else { 64496 }),
         "mft" => mft_content(),
         _ => b"generic RPKI signed object content".to_vec(),
@@ -214,7 +228,8 @@ pub fn assemble(ctx: &mut Ctx, c: &Value) -> (Vec<u8>, bool) {
     let mut sid = ctx.pki.pubkey("e0").key_identifier().as_slice().to_vec();
     if g("ee") == "skibad" { sid[19] ^= 0x01; }          // the signer identifier follows the certificate's (wrong) identifier
     if g("sid") == "bad" { sid[0] ^= 0x80; }
-    let ee = ctx.ee_cert(kind, g("ee"), g("cover"), c["fam"].as_str().unwrap_or("v4"));
+    if g("sid") == "long" { sid.push(0x00); }
+    let ee = ctx.ee_cert(kind, g("ee"), g("cover"), c["fam"].as_str().unwrap_or("v4"), c["pol"].as_str().unwrap_or("refuse"));
     let bytes = signed_data(&SignedDataParts { content_type: ct_oid, content, attrs, certs: vec![ee], crls: vec![], sid, signature });
     (bytes, g("crl") == "revoked")
 }
@@ -284,7 +299,8 @@ pub fn replay(args: &[String]) {
                 continue;
             }
             let fam = c["fam"].as_str().unwrap_or("v4");
-            let mode = format!("{}{}", if kind == "roa" && fam != "v4" { format!(":{fam}") } else { String::new() }, if strict { "" } else { ":relaxed" });
+            let pol = c["pol"].as_str().unwrap_or("refuse");
+            let mode = format!("{}{}{}", if kind == "roa" && fam != "v4" { format!(":{fam}") } else { String::new() }, if pol == "trim" { ":trim" } else { "" }, if strict { "" } else { ":relaxed" });
             let r = guarded(|| {
                 let (bytes, revoked) = assemble(&mut ctx, c);
                 let issuer = if c["f"]["cover"] == "ipinherit" { &ctx.issuer_as_only } else { &ctx.issuer };
